@@ -241,3 +241,55 @@ def _(self: Obj(KeyBlob, key=Bytes(16), ctr_init_vector=Bytes(8), start_addr=U32
     pure()
     sample_with(lambda rnd: (lambda kb, off: {"self": kb, "base_address": kb.start_addr + off, "data": bytes(rnd.getrandbits(8) for _ in range(rnd.choice([16, 32, 48]))),
                                               "byte_swap": False, "counter_value": None})(_mk_kb_enc(rnd), rnd.choice([0, 0x10, 0x400, 0x7F0])))
+
+
+# ---- BEE FAC region record: start, END (not length), protection level, 20 reserved zero bytes - and the way back --------------------------------------
+from struct import unpack_from as _unp13  # noqa: E402
+
+inline("spsdk.image.bee:BeeFacRegion.__init__", "spsdk.image.bee:BeeFacRegion.validate", "spsdk.image.bee:BeeFacRegion.export", "spsdk.image.bee:BeeFacRegion.parse",
+       "spsdk.image.bee:BeeBaseClass.export", "spsdk.image.bee:BeeBaseClass._struct_format", "spsdk.image.bee:BeeBaseClass.get_size", "spsdk.image.bee:BeeBaseClass.size",
+       "spsdk.image.bee:BeeBaseClass.check_data_to_parse", "spsdk.image.bee:BeeBaseClass.validate")
+
+
+@lemma("bee-fac-region-record-holds-start-end-level-and-parses-back")
+def _(start: U32, length: Range(1, 0xFFFFFFFF), level: Range(0, 3)):
+    requires(start + length <= 0xFFFFFFFF and start % 1024 == 0 and length % 1024 == 0)
+    let(raw=BeeFacRegion(start, length, level).export())
+    ensures(len(raw) == 32 and _unp13("<3I", raw, 0) == (start, start + length, level) and raw[12:32] == bytes(20), label="start-end-level-reserved-zero")
+    let(back=BeeFacRegion.parse(raw))
+    ensures(back.start_addr == start and back.length == length and back.protected_level == level, label="parse-inverts-export")
+
+
+# ---- BEE protect region block: tags, version, FAC count, window, mode, lock options, counter byte-reversed, reserved zeros, FAC records, zero fill ----
+from spsdk.image.bee import BeeProtectRegionBlockAesMode as _Mode  # noqa: E402
+
+inline("spsdk.image.bee:BeeProtectRegionBlock.get_size", "spsdk.image.bee:BeeProtectRegionBlock.validate")
+
+
+def FACV():
+    return Obj(BeeFacRegion, start_addr=Range(0, 0x3FFFFF), length=Range(1, 0x3FFFFF), protected_level=Range(0, 3))
+
+
+def PRDBX(k):
+    return Obj(BeeProtectRegionBlock, fac_regions=ListOf(FACV(), k), _start_addr=U32, _end_addr=U32, mode=Const(_Mode.CTR), lock_options=U32, counter=Bytes(16))
+
+
+def _mk_prdb_x(rnd):
+    p = BeeProtectRegionBlock(_Mode.CTR, rnd.getrandbits(32), bytes(rnd.getrandbits(8) for _ in range(12)) + bytes(4))
+    for _ in range(rnd.randrange(1, 3)):
+        p.fac_regions.append(BeeFacRegion(rnd.randrange(0, 1 << 10) * 1024, rnd.randrange(1, 64) * 1024, rnd.randrange(4)))
+    return p
+
+
+@contract("spsdk.image.bee:BeeProtectRegionBlock.export")
+def _(self: Union[PRDBX(1), PRDBX(2)]) -> bytes:
+    requires(all(f.start_addr % 1024 == 0 and f.length % 1024 == 0 for f in self.fac_regions) and self.counter[12:16] == bytes(4))
+    let(k=len(self.fac_regions), lo=min([f.start_addr for f in self.fac_regions]), hi=max([f.start_addr + f.length for f in self.fac_regions]))
+    ensures(len(result) == 0x100, label="block-size")
+    ensures(_unp13("<8I", result, 0) == (0x5F474154, 0x52444845, 0x56010000, k, lo, hi, self.mode.tag, self.lock_options), label="tags-version-count-window-mode-lock")
+    ensures(all(result[32 + i] == self.counter[15 - i] for i in range(16)) and result[48:80] == bytes(32), label="counter-byte-reversed-then-reserved-zeros")
+    ensures(all(_unp13("<3I", result, 80 + 32 * i) == (self.fac_regions[i].start_addr, self.fac_regions[i].start_addr + self.fac_regions[i].length,
+                                                      self.fac_regions[i].protected_level) for i in range(k)), label="fac-records-in-order")
+    ensures(forall(80 + 32 * k, 0x100, lambda j: result[j] == 0), label="rest-zero")
+    modifies(self._start_addr, self._end_addr)
+    sample_with(lambda rnd: {"self": _mk_prdb_x(rnd)})
